@@ -318,7 +318,9 @@ def sql_varid(prog: Program) -> RuleResult:
         )
     # (1b) the statement selects FROM the selected variable's table: the join starts there.  An equality between two variables none of which
     #      is the selected one would join one of them with an ON clause over a table that is not in the statement.
-    anchor_vars = {t.id for n_ in cfg.nodes if isinstance(n_.stmt, ast.Assign) and any("selected_variable" in src(c_) for c_ in calls_in(n_.stmt)) for t in n_.stmt.targets if isinstance(t, ast.Name)}
+    anchor_vars = {t.id for n_ in cfg.nodes if isinstance(n_.stmt, ast.Assign) and "selected_variable" in src(n_.stmt.value) for t in n_.stmt.targets if isinstance(t, ast.Name)}
+    # the sides are told apart as *variables*: another variable of the selected variable's class is not the selected variable
+    leaf_vars = {t.id for n_ in cfg.nodes if isinstance(n_.stmt, ast.Assign) and any(call_name(c_) == "extract_leaf_variable" for c_ in calls_in(n_.stmt)) for t in n_.stmt.targets if isinstance(t, ast.Name)}
     for jc in joins:
         jn = cfg.node_of(jc)
         guard = None
@@ -346,12 +348,14 @@ def sql_varid(prog: Program) -> RuleResult:
 
             # the test holds exactly when neither side is the selected variable's table
             table_ok = len(others) == 2 and all(ev_(tt, {others[0]: a_, others[1]: b_}) == (not a_ and not b_) for a_ in (False, True) for b_ in (False, True))
+            table_ok = table_ok and set(others) <= leaf_vars
             if table_ok and rejects and t.true_succ is not None and not cfg.dominates(t.true_succ, jn):
                 guard = t
         r.check(per_variable_alias or guard is not None, f"{j.short}#one-side-is-selected", site(j, jc), src(jc)[:100],
                 "a pair of variables none of which is the selected one is rejected before the join is emitted",
-                "the join takes one variable for the selected one without checking: for entity(r, f.parent == p.child) the statement selects FROM r's table, joins one of the "
-                "two others and compares it with a table that is not in the statement (no rows instead of every r)")
+                "the join takes one variable for the selected one without checking that it *is* that variable (a test on the mapped classes lets a second variable of the selected "
+                "variable's class pass for it): for entity(h, hh.world == c.world) the condition is applied to h's own row, for entity(r, f.parent == p.child) the statement compares with a "
+                "table that is not in it")
     # (2) the equality is never lost: a path that reports "handled by a JOIN" (returns True) passes the join call; any other non-None
     #     result is the equality itself, and the caller hands it on as a condition
     rets = [n for n in cfg.nodes if isinstance(n.stmt, ast.Return) and n.stmt.value is not None and not (isinstance(n.stmt.value, ast.Constant) and n.stmt.value.value is None)]
